@@ -111,11 +111,24 @@ func runC03(ctx *core.Ctx, idx int) *core.Result {
 			margs = append(margs, "«"+[]string{"x", "y", "z"}[i]+"»")
 		}
 		dots := r.Intn(3) == 0
+		recvForm := r.Intn(3) == 0 && metas[0].Kind == "expression"
 		minus := "target(" + strings.Join(margs, ", ")
+		if recvForm {
+			// the first metavariable is the receiver: sites on the left spine of longer chains
+			minus = margs[0] + ".Target(" + strings.Join(margs[1:], ", ")
+			if dots && len(margs) == 1 {
+				minus = margs[0] + ".Target(‹1:args›"
+				dots = false
+				minus += ")"
+			}
+		}
 		if dots {
 			minus += ", ‹1:args›"
 		}
-		minus += ")"
+		if !strings.HasSuffix(minus, ")") || strings.Count(minus, "(") != strings.Count(minus, ")") {
+			minus += ")"
+		}
+		dots = strings.Contains(minus, "‹1:args›")
 		plus, shape := plusOver(g, metas)
 		if dots && strings.HasPrefix(plus, "repl(") && strings.HasSuffix(plus, ")") && r.Intn(2) == 0 {
 			if strings.HasSuffix(plus, "()") {
@@ -142,6 +155,15 @@ func runC03(ctx *core.Ctx, idx int) *core.Result {
 					case 1:
 						// a nested instance inside the binding
 						fill.Meta[m.Name] = "target(" + g.Atom() + strings.Repeat(", "+g.Atom(), nm-1) + ")"
+						if recvForm {
+							fill.Meta[m.Name] = "mk()" + ".Target(" + strings.TrimPrefix(strings.Repeat(", "+g.Atom(), nm-1), ", ") + ")"
+						}
+					case 2:
+						if recvForm {
+							fill.Meta[m.Name] = g.Primary(1, nil)
+						} else {
+							fill.Meta[m.Name] = g.Expr(2, nil)
+						}
 					default:
 						fill.Meta[m.Name] = g.Expr(2, nil)
 					}
